@@ -68,7 +68,7 @@ def run(ctx, log):
     progcheck.run_scale(ctx, log, ['constants', 'locals', 'args', 'statements', 'nesting', 'rtnest', 'objects', 'cyclic', 'alias', 'literal', 'temporaries', 'arity', 'names', 'text', 'csc'])
     progcheck.run_code_boundary(ctx, log)
     # misplaced stop / volgende under every nesting: rejected before anything runs, or run to a value - never a crash
-    sj = progcheck.stray_jump_family(ctx.quick, ctx.rng)
+    sj = progcheck.stray_jump_family(ctx.quick, ctx.rng, all_pres_depth=3)
     for prof in ("release", "debug"):
         for x, o in zip(sj, vlib.nlh("eval", ["20000 " + vlib.hexs(x) for x in sj], tag="c05sj", profile=prof, timeout=600)):
             ctx.seen(("stray-jump", x, prof))
